@@ -361,8 +361,11 @@ async def step(
             sim.schedule_step(next_step_tiered_time)
             sim.next_self_step = next_step_tiered_time
 
-    if sim.type == 'time-based':
-        assert next_step_time, "A time-based simulator must always return a next step"
+    if sim.type == 'time-based' and next_step_time is None:
+        raise SimulationError(
+            'A time-based simulator must always return a next step, but simulator '
+            f'"{sim.sid}" returned None'
+        )
 
 
 def rt_check(
